@@ -473,3 +473,63 @@ theorem buildUndirected_uwf (n : Nat) (es : List EdgeIn) : (buildUndirected n es
   foldl_undirected_uwf es _ (wf_new n) (by intro u x hx; rw [adj_new] at hx; simp at hx)
 
 end AlgoVerif.C14
+
+namespace AlgoVerif.C14
+
+theorem mem_adj_addArc (g : Graph) (hg : g.WF) (v : Nat) (hv : v < g.n) (x : Arc) (u : Nat) (y : Arc) :
+    y ∈ (g.addArc v x).adj.getD u [] ↔ y ∈ g.adj.getD u [] ∨ (u = v ∧ y = x) := by
+  rw [adj_addArc g hg v hv]
+  by_cases h : u = v
+  · simp [h]
+  · simp [h]
+
+theorem ustored_addEdgeUndirected (g : Graph) (hg : g.WF) (hd : g.UStored) (v w wt : Int) :
+    (g.addEdgeUndirected v w wt).UStored := by
+  unfold Graph.addEdgeUndirected
+  split
+  · rename_i h
+    simp only [Bool.and_eq_true, valid_iff] at h
+    have hv : v.toNat < g.n := by omega
+    have hw : w.toNat < g.n := by omega
+    let e : Edge := ⟨v.toNat, w.toNat, wt⟩
+    have h1 := wf_addArc g hg v.toNat hv ⟨w.toNat, e⟩ hw
+    have hw1 : w.toNat < (g.addArc v.toNat ⟨w.toNat, e⟩).n := by rw [n_addArc]; exact hw
+    -- membership in the new adjacency lists
+    have hmem : ∀ u y, y ∈ ((g.addArc v.toNat ⟨w.toNat, e⟩).addArc w.toNat ⟨v.toNat, e⟩).adj.getD u [] ↔
+        y ∈ g.adj.getD u [] ∨ (u = v.toNat ∧ y = ⟨w.toNat, e⟩) ∨ (u = w.toNat ∧ y = ⟨v.toNat, e⟩) := by
+      intro u y
+      rw [mem_adj_addArc _ h1 _ hw1, mem_adj_addArc g hg _ hv]
+      constructor
+      · rintro ((h | h) | h)
+        · exact Or.inl h
+        · exact Or.inr (Or.inl h)
+        · exact Or.inr (Or.inr h)
+      · rintro (h | h | h)
+        · exact Or.inl (Or.inl h)
+        · exact Or.inl (Or.inr h)
+        · exact Or.inr h
+    have hnew : ((g.addArc v.toNat ⟨w.toNat, e⟩).addArc w.toNat ⟨v.toNat, e⟩).StoredEdge e := by
+      constructor
+      · exact (hmem _ _).2 (Or.inr (Or.inl ⟨rfl, rfl⟩))
+      · exact (hmem _ _).2 (Or.inr (Or.inr ⟨rfl, rfl⟩))
+    intro u x hx
+    rcases (hmem u x).1 hx with h2 | ⟨_, rfl⟩ | ⟨_, rfl⟩
+    · obtain ⟨k1, k2⟩ := hd u x h2
+      exact ⟨(hmem _ _).2 (Or.inl k1), (hmem _ _).2 (Or.inl k2)⟩
+    · exact hnew
+    · exact hnew
+  · exact hd
+
+theorem foldl_undirected_ustored (es : List EdgeIn) :
+    ∀ g : Graph, g.WF → g.UStored → (es.foldl (fun g e => g.addEdgeUndirected e.u e.v e.w) g).UStored := by
+  induction es with
+  | nil => intro g _ hd; exact hd
+  | cons e es ih =>
+    intro g hg hd
+    exact ih _ (wf_addEdgeUndirected g hg _ _ _) (ustored_addEdgeUndirected g hg hd _ _ _)
+
+/-- graphs built by `NewWeightedUndirected(n, es…)` store every edge in the adjacency lists of both ends -/
+theorem buildUndirected_ustored (n : Nat) (es : List EdgeIn) : (buildUndirected n es).UStored :=
+  foldl_undirected_ustored es _ (wf_new n) (by intro u x hx; rw [adj_new] at hx; simp at hx)
+
+end AlgoVerif.C14
